@@ -4,8 +4,13 @@
 # it), runs the given quick checks against it in /repo, reverts, and stores it under /verif/seeded/<PROP>-<x>/.
 P=$1; X=$2; CHECKS=$3
 WT=/tmp/seed_$P; OUT=$WT/_out/$X; DST=/verif/seeded/$P-$X
-[ -f $OUT/patch.diff ] || { echo "no patch"; exit 2; }
-mkdir -p $DST; cp $OUT/patch.diff $OUT/demo.rs $DST/; cp $OUT/README.md $DST/README.md 2>/dev/null
+if [ -f $OUT/patch.diff ]; then
+  mkdir -p $DST; cp $OUT/patch.diff $OUT/demo.rs $DST/; cp $OUT/README.md $DST/README.md 2>/dev/null
+elif [ -f $DST/patch.diff ]; then
+  OUT=$DST; SKIP_DEMO=1   # the scratch worktree is gone: only re-run checks against the stored patch
+else
+  echo "no patch"; exit 2
+fi
 if [ -n "$SKIP_DEMO" ] && [ -f $DST/meta.json ]; then
   demo_clean=KEEP; demo_mut=KEEP; suite=KEEP
 else
